@@ -744,6 +744,29 @@ def check_wrappers(ctx, prog):
     f = one('asl::Condition::use')
     st = [e for e in fn_exprs(f) if e.get('k') == 'bin' and e.get('op') == '=' and strip_lv(e['x']).get('f') == '_mutex' and strip(e['y']).get('op') == '&' and strip(strip(e['y'])['e']).get('id') == f['params'][0]['id']]
     ctx.check(len(st) == 1, 'C13.wrappers', f['pq'], 'Condition::use():records the mutex', fwhere(f), '_mutex = &m', 'Condition::use() does not record the address of the mutex it is given')
+    if len(st) == 1:
+        # ... on every path: a use() that keeps an earlier mutex makes the waiter block on one mutex while holding another
+        ucfg = cfgm.CFG(f)
+
+        def ustep(nd, st_):
+            return True if nd.kind == 'ev' and nd.e is not None and any(w is st[0] for w in walk_expr(nd.e)) else st_
+        ureached, _ = cfgm.dataflow(ucfg, False, ustep)
+        uex = ureached.get(ucfg.exit.id, set())
+        ctx.check(False not in uex, 'C13.wrappers', f['pq'], 'Condition::use():the mutex is recorded on every path', fwhere(f, st[0]['l']), 'every path through use() stores `_mutex = &m`',
+                  'Condition::use() keeps a mutex recorded earlier on some path: a waiter that locks the new mutex waits with the old one, never releases the new one, and the signaller blocks for ever')
+    # the Context handed to a lambda thread is copied by the worker before the creator moves on: every member must be a value
+    # (a reference member copies only the reference - the function object then lives in the creator's expired temporary)
+    nref = 0
+    for rq, rec in prog.records.items():
+        if 'Thread::Context<' not in rq:
+            continue
+        nref += 1
+        refs = [fl['n'] for fl in rec.get('fields', []) if T(rec, fl['t']).get('ref')]
+        if 'C13.context:members by value' in [o.role for o in ctx.obligations if o.rule == 'C13.context'] and not refs:
+            continue
+        ctx.check(not refs, 'C13.context', 'asl::Thread::Context', 'C13.context:members by value', '%s:%s' % (rec.get('file', ''), rec.get('line', 0)), 'the context holds the function object and the range by value',
+                  'Thread::Context holds `%s` by reference: the worker copies the reference, not the function object, and runs it after the creator\'s temporary is gone (%s)' % (', '.join(refs), rq))
+    ctx.floor('C13.context record instantiations', nref, 1)
     f = one('asl::Condition::signal')
     c = lib_calls(f)
     ctx.check(len(c) == 1 and c[0]['fn'] in ('pthread_cond_broadcast',), 'C13.wrappers', f['pq'], 'Condition::signal():wakes all waiters', fwhere(f), 'pthread_cond_broadcast', 'Condition::signal() does not broadcast: waiters other than the first never see the signal')
